@@ -903,6 +903,23 @@ class BasisManaged(Managed):
     def set_current_basis(self,bb):
         self._current_basis = bb
             
+    def __copy__(self):
+        """Shallow copy which is known to the basis management
+        
+        A copy made inside a basis context carries the basis label of 
+        the original; it has to be registered with that basis, otherwise 
+        it is not transformed back when the context is left.
+        
+        """
+        cls = self.__class__
+        new = cls.__new__(cls)
+        new.__dict__.update(self.__dict__)
+        bb = new.get_current_basis()
+        registered = Manager().basis_registered
+        if bb in registered:
+            Manager().register_with_basis(bb, new)
+        return new
+
     def protect_basis(self):
         self.is_basis_protected = True
         
